@@ -62,7 +62,7 @@ func panicSite(stack string) string {
 			first = fn
 		}
 		if isRisor(fn) {
-			return short(fn)
+			return stripClosure(short(fn))
 		}
 	}
 	if first != "" {
@@ -259,6 +259,20 @@ func receiverOf(f string) string {
 		return ""
 	}
 	return f[:i] + "." + strings.Trim(f[i+2:i+j], "*")
+}
+
+// stripClosure drops the ".func1.2" suffixes of closures.
+func stripClosure(f string) string {
+	for {
+		i := strings.LastIndex(f, ".func")
+		if i < 0 {
+			return f
+		}
+		if strings.Trim(f[i+5:], "0123456789.") != "" {
+			return f
+		}
+		f = f[:i]
+	}
 }
 
 // collapse drops closures' suffixes (".func1"), receivers and duplicates; sorted.
